@@ -380,9 +380,16 @@ def untouched(n, r, api):
         out.append((f"lost:graph.metadata_props:{api}", ""))
     # surviving nodes: same op_type and same outputs
     rn = {(x.op_type, tuple(x.output)): x for x in r.graph.node}
+    from collections import Counter
+
+    # (a node with a twin - same operator, inputs and attributes - has no identity of its own: common-subexpression elimination keeps
+    # one of the two under either output name, and whichever it keeps brings its own doc_string / metadata)
+    twin = Counter((x.op_type, x.domain, tuple(x.input), tuple(sorted(a.SerializeToString() for a in x.attribute))) for x in n.graph.node)
     for x in n.graph.node:
         y = rn.get((x.op_type, tuple(x.output)))
         if y is None or list(x.input) != list(y.input):
+            continue
+        if twin[(x.op_type, x.domain, tuple(x.input), tuple(sorted(a.SerializeToString() for a in x.attribute)))] > 1:
             continue
         if x.doc_string != y.doc_string:
             out.append((f"lost:node.doc_string:{api}", f"{x.op_type} {x.doc_string!r} -> {y.doc_string!r}"))
